@@ -120,7 +120,11 @@ def oracle(case):
     spec, specB, builders = build_all(case)
     viol, labels, keys = [], {}, []
     sigs = {k: run_sig(spec, b(), case['ops']) for k, b in builders.items()}
-    again = run_sig(spec, builders['apiA'](), case['ops'])
+    # the second run re-uses the very Statechart object of the first one: executing a statechart
+    # must not change it
+    scA = builders['apiA']()
+    sigs['apiA'] = run_sig(spec, scA, case['ops'])
+    again = run_sig(spec, scA, case['ops'])
     d = first_diff(sigs['apiA'], again)
     if d:
         viol.append({'prop': PROP, 'kind': 'not-repeatable', 'step': d['step_index'], 'detail': d})
